@@ -1551,6 +1551,13 @@ func (in *Interp) valueEqual(a, b Value) *Term {
 		return And(cs...)
 	case *NativeV:
 		y, ok := b.(*NativeV)
+		if ok && x.Kind == "rtype" && y.Kind == "rtype" {
+			tx, okx := x.V.(types.Type)
+			ty, oky := y.V.(types.Type)
+			if okx && oky {
+				return BoolC(types.Identical(tx, ty))
+			}
+		}
 		return BoolC(ok && x == y)
 	case *DecV:
 		// Go's == on the struct compares the encoding, not the number: equal
